@@ -115,6 +115,15 @@ func init() {
 				add(base + "Z")
 				add(base + "60")
 				add(" " + base)
+				// texts that contain quotation marks (as CONTENT of the string): alone, around and inside the valid text
+				for _, q := range []string{`"`, `'`, "\\", "`"} {
+					add(q)
+					add(q + q)
+					add(q + base)
+					add(base + q)
+					add(q + base + q)
+					add(base[:len(base)/2] + q + base[len(base)/2:])
+				}
 			}
 			fs := M{"type": "object", "properties": M{"t": M{"type": "string", "format": fname}, "n": M{"type": "integer", "minimum": 1}, "o": M{"type": "object", "properties": M{"t": M{"type": "string", "format": fname}}, "required": []any{"t"}}}, "required": []any{"n"}}
 			subs = append(subs, subType{fs, "Root", `{"n":1}`, docs})
